@@ -371,6 +371,10 @@ def expand(blob, tier, acc):
             acc.violation("refusal", site, "non-contiguous-register-accepted", case, "ValueError", "accepted")
             continue
         apply_event_model(m, ev)
+        mut = gq.check_shared_lists()
+        if mut is not None:
+            acc.violation("invariant", site, "shared-wrapper-operations-list-mutated", case, "unchanged", mut)
+            continue
         bad = check_invariants(circ, m)
         if bad is not None:
             acc.violation("invariant", site, bad[0], case, "consistent circuit", bad[1])
